@@ -219,7 +219,7 @@ Definition eT := mk_env (fun f a b => f ((a + b) / 2) * 3 + a * 5 + b * 7)
 (* Interval's tan only covers the principal range: unfold it into sin / cos *)
 Ltac ev := unfold JbPosReal, JbNegReal, JbNegImag, JfPosReal, JfNegReal, JfNegImag, tan;
   interval with (i_prec 120).
-Ltac evw := unfold JbWrapper, JfWrapper;
+Ltac evw := unfold JbEval, JfEval, JbWrapper, JfWrapper; cbv zeta;
   match goal with |- context [Rle_dec ?a ?b] =>
     destruct (Rle_dec a b); [try (exfalso; lra) | try (exfalso; lra)] end;
   cbn [fst snd eT quad quad_inf]; split; ev.
@@ -248,7 +248,9 @@ def wrapper_cases(ctx, rng, n):
         for tag, cls in (("Jb", I.JbIntegral), ("Jf", I.JfIntegral)):
             obj = cls(bUseAdaptiveInterpolation=False)
             xs = [Fraction(0), dy(rng, 1 / 8, 30), dy(rng, 30, 900)] + \
-                [dy(rng, -100, -1 / 8) for _ in range(n)]
+                [dy(rng, -100, -1 / 8) for _ in range(n)] + \
+                [-Fraction(1, 2 ** rng.randint(3, 12)), -Fraction(1, 2 ** rng.randint(13, 40)),
+                 Fraction(1, 2 ** rng.randint(10, 40))]
             for x in xs:
                 # dyadic square roots only where needed: the split sqrt|x| is irrational in
                 # general, the model computes it with `sqrt`, interval arithmetic encloses it
@@ -266,8 +268,8 @@ def wrapper_cases(ctx, rng, n):
 def wrapper_file(rows):
     goals = []
     for tag, x, re, im in rows:
-        goals.append("Goal Rabs (fst (%sWrapper eT %s) - %s) <= %s /\\ "
-                     "Rabs (snd (%sWrapper eT %s) - %s) <= %s.\nProof. evw. Qed." % (
+        goals.append("Goal Rabs (fst (%sEval eT %s) - %s) <= %s /\\ "
+                     "Rabs (snd (%sEval eT %s) - %s) <= %s.\nProof. evw. Qed." % (
                          tag, R(x), R(Fraction(re)), R(tol_of(re, 1e-8, 1e-9)),
                          tag, R(x), R(Fraction(im)), R(tol_of(im, 1e-8, 1e-9))))
     return INTEGRAND_HDR + "\n".join(goals) + "\n"
@@ -288,11 +290,13 @@ Ltac decide1 :=
     let H := fresh in destruct (Rlt_dec a b) as [H|H];
     [ try (exfalso; apply (Rlt_not_le _ _ H); interval)
     | try (exfalso; apply H; interval) ] end.
-Ltac redS := unfold potentialOneLoopThermal;
+Ltac redS := unfold potentialOneLoopThermal, potentialOneLoopThermalArr;
   repeat (cbn [EImaginaryOption_eq_dec EImaginaryOption_rec EImaginaryOption_rect sumbool_rec
                sumbool_rect map existsb zipR sumR fst snd Jb Jf eS orb andb];
           try decide1).
 Ltac some := redS; eexists; split; [reflexivity | unfold SMALL_NUMBER; interval with (i_prec 100)].
+Ltac somes := redS; eexists; split; [reflexivity | split; [reflexivity |
+  cbn [nth]; repeat split; unfold SMALL_NUMBER; interval with (i_prec 100)]].
 Ltac none := redS; reflexivity.
 """
 
@@ -313,6 +317,8 @@ def make_pot(integrals, opt):
             raise NotImplementedError
     if integrals is None:
         return OneLoop(imaginaryOption=opt)
+    if isinstance(integrals, str) and integrals == "shipped":
+        return OneLoop(useDefaultInterpolation=True, imaginaryOption=opt)
     return OneLoop(integrals=integrals, imaginaryOption=opt)
 
 
@@ -336,39 +342,65 @@ def sum_cases(ctx, rng, n):
     rows = []
     stub = StubIntegrals()
     for k in range(n):
+        # stratified: every option with and without a negative mass; every third case with an
+        # ARRAY of temperatures (the `ndim > 0` branch, model potentialOneLoopThermalArr)
         opt = ["ERROR", "ABS_ARGUMENT", "ABS_RESULT", "PRINCIPAL_PART"][k % 4]
+        want_neg = (k // 4) % 2 == 0
         nb, nf = rng.randint(1, 4), rng.randint(1, 3)
-        allow_neg = rng.random() < 0.6
-        mB = [dy(rng, -40 if allow_neg else 0, 200, 4) for _ in range(nb)]
-        mF = [dy(rng, -8 if (allow_neg and rng.random() < 0.3) else 0, 200, 4)
-              for _ in range(nf)]
+        mB = [dy(rng, 0, 200, 4) for _ in range(nb)]
+        mF = [dy(rng, 0, 200, 4) for _ in range(nf)]
+        if want_neg:
+            mB[rng.randrange(nb)] = dy(rng, -40, -1 / 16, 4)
+            if rng.random() < 0.3:
+                mF[rng.randrange(nf)] = dy(rng, -8, -1 / 16, 4)
         dB = [Fraction(rng.randint(1, 24)) for _ in range(nb)]
         dF = [Fraction(rng.randint(1, 12)) for _ in range(nf)]
-        T = dy(rng, 1 / 4, 12, 4)
+        nT = 0 if k % 3 else rng.choice([1, 2, 3])
+        Ts = [dy(rng, 1 / 4, 12, 4) for _ in range(max(nT, 1))]
         pot = make_pot(stub, getattr(EImaginaryOption, opt))
         bosons = (np.array([float(m) for m in mB]), np.array([float(d) for d in dB]),
                   np.full(nb, 1.5), np.full(nb, 100.0))
         fermions = (np.array([float(m) for m in mF]), np.array([float(d) for d in dF]),
                     np.full(nf, 1.5), np.full(nf, 100.0))
         try:
-            v = float(pot.potentialOneLoopThermal(bosons, fermions, float(T)))
+            if nT:
+                v = [float(u) for u in np.asarray(pot.potentialOneLoopThermal(
+                    bosons, fermions, np.array([float(T) for T in Ts])), dtype=float).ravel()]
+                if len(v) != nT:
+                    ctx.fail_input("potentialOneLoopThermal with %d temperatures returns %d "
+                                   "values" % (nT, len(v)), dict(kind="array_shape", nT=nT,
+                                                                  got=v), key="array-T:shape")
+                    continue
+            else:
+                v = float(pot.potentialOneLoopThermal(bosons, fermions, float(Ts[0])))
         except ValueError:
             v = None
         neg = any(m < 0 for m in mB + mF)
         ctx.count("thermal_sum", dict(opt=opt, mB=[str(m) for m in mB], mF=[str(m) for m in mF],
-                                      T=str(T)), bucket="%s/%s" % (opt, "neg" if neg else "nonneg"))
-        rows.append((opt, mB, dB, mF, dF, T, v))
+                                      T=[str(T) for T in Ts], nT=nT),
+                  bucket="%s/%s/%s" % (opt, "neg" if neg else "nonneg",
+                                       "array T" if nT else "scalar T"))
+        rows.append((opt, mB, dB, mF, dF, Ts if nT else Ts[0], v))
     return rows
 
 
 def sum_file(rows):
     goals = []
     for opt, mB, dB, mF, dF, T, v in rows:
-        call = "potentialOneLoopThermal eS %s [%s] [%s] [%s] [%s] %s" % (
+        arr = isinstance(T, list)
+        call = "potentialOneLoopThermal%s eS %s [%s] [%s] [%s] [%s] %s" % (
+            "Arr" if arr else "",
             opt, "; ".join(R(m) for m in mB), "; ".join(R(d) for d in dB),
-            "; ".join(R(m) for m in mF), "; ".join(R(d) for d in dF), R(T))
+            "; ".join(R(m) for m in mF), "; ".join(R(d) for d in dF),
+            "[%s]" % "; ".join(R(t) for t in T) if arr else R(T))
         if v is None:
             goals.append("Goal %s = None.\nProof. none. Qed." % call)
+        elif arr:
+            goals.append("Goal exists l, %s = Some l /\\ length l = %d%%nat /\\ %s.\nProof. somes. "
+                         "Qed." % (call, len(v), " /\\ ".join(
+                             "Rabs (nth %d l 0 - %s) <= %s" % (i, R(Fraction(u)),
+                                                               R(tol_of(u, 1e-9, 1e-9)))
+                             for i, u in enumerate(v))))
         else:
             goals.append("Goal exists v, %s = Some v /\\ Rabs (v - %s) <= %s.\nProof. some. "
                          "Qed." % (call, R(Fraction(v)), R(tol_of(v, 1e-9, 1e-9))))
@@ -416,29 +448,42 @@ KINK = {"f": -math.pi ** 2, "b": -4 * math.pi ** 2}
 
 
 def classify_integral(ctx, tag, kind, obj, x, got, want, tol, where):
-    """got/want: (re, im). Reports a failing input; the key separates a quadrature that silently
-    missed the interior kink/jump (same rule on the reference integrand reproduces the error) from
-    a wrong integrand / assembly."""
+    """got/want: (re, im); BOTH parts are judged.  A deviation is attributed to the known finding
+    quad-unresolved-kink only through its mechanism: (a) the argument lies below the threshold
+    where the negative-argument integrand has an interior kink / jump, (b) the implementation's own
+    integrands and assembly with break points handed to quad reproduce the defining integral,
+    (c) the same scipy rule (limit=100, no break points) applied to the EXACT integrand errs as
+    much (the error is not more than 3 times larger, floor 3e-6).  Anything else gets its own
+    key."""
+    ok = True
     for part, g, w in (("real", got[0], want[0]), ("imag", got[1], want[1])):
-        if abs(g - w) <= tol * max(1.0, abs(w)):
+        if math.isfinite(g) and abs(g - w) <= tol * max(1.0, abs(w)):
             continue
+        ok = False
         key = "integral:%s:%s" % (tag, part)
         note = ""
-        if x < KINK[kind]:
-            rv = repaired_J(obj, kind, x)[0 if part == "real" else 1]
+        if x < KINK[kind] and math.isfinite(g):
+            j = 0 if part == "real" else 1
+            rv = repaired_J(obj, kind, x)[j]
             if abs(rv - w) <= 1e-8 * max(1.0, abs(w)):
-                key = "quad-unresolved-kink"
-                note = " [the same code with break points handed to quad gives %r]" % rv
+                ne = abs(naive_J(kind, x)[j] - w)
+                if abs(g - w) <= 3 * max(ne, 3e-6 * max(1.0, abs(w))):
+                    key = "quad-unresolved-kink"
+                    note = " [same code with break points in quad: %r; same rule on the exact " \
+                           "integrand errs by %.3g]" % (rv, ne)
+                else:
+                    key = "integral:%s:%s:worse-than-the-kink-mechanism" % (tag, part)
+                    note = " [the plain rule on the exact integrand errs by only %.3g]" % ne
         ctx.fail_input("%s %s(%r): %s part %r, defining integral %r (diff %.3g)%s" % (
             where, tag, x, part, g, w, g - w, note),
             dict(kind="integral", cls=tag, x=x, part=part, got=g, want=w, where=where),
             key=key)
-        return False
-    return True
+    return ok
 
 
 def run(ctx):
     import logging
+    import os
     logging.getLogger().setLevel(logging.ERROR)
     rng = ctx.rng
     # ---- 1. generate ---------------------------------------------------------------------------
@@ -457,9 +502,10 @@ def run(ctx):
             spans=spans))
         extra.append("ThermalSumGen.v")
         src_b = vlib.read_src("interpolatableFunction.py")
-        ctx.write("Ctors.v", gen_thermal.constructors(src_i, src_b), sources=dict(
-            file="src/WallGo/PotentialTools/integrals.py + src/WallGo/interpolatableFunction.py",
-            sha=vlib.sha(src_i + src_b)))
+        ctx.write("Ctors.v", gen_thermal.constructors(src_i, src_b, src_p), sources=dict(
+            file="src/WallGo/PotentialTools/integrals.py + interpolatableFunction.py + "
+                 "PotentialTools/effectivePotentialNoResum.py",
+            sha=vlib.sha(src_i + src_b + src_p)))
         extra.append("Ctors.v")
         tabrows = {}
         for nm, rel in TAB.items():
@@ -480,7 +526,6 @@ def run(ctx):
                     "Interval tactic (certified evaluation)",
                     "kernel primitive 63-bit integers (table literals)"]
     # ---- 3. correspondence -----------------------------------------------------------------------
-    import os
     have = {f: os.path.exists(os.path.join(ctx.bdir, f.replace(".v", ".vo"))) for f in extra}
     files = []
     if have.get("Integrands.v"):
@@ -508,8 +553,9 @@ def run(ctx):
         ctx.sample(dict(thermal_sum=[(r[0], [str(m) for m in r[1]], str(r[5]), r[6])
                                      for r in srows[:2]]))
     # run in batches of 12 processes
-    for k in range(0, len(files), 12):
-        compile_parallel(ctx, files[k:k + 12], "eval")
+    jobs = max(2, min(8, (os.cpu_count() or 4)))
+    for k in range(0, len(files), jobs):
+        compile_parallel(ctx, files[k:k + jobs], "eval")
     # tables: the generated rows are exactly what the running package loaded
     from WallGo import PotentialTools
     D = PotentialTools.defaultIntegrals
@@ -677,19 +723,45 @@ def direct(ctx, rng, D):
                               "direct")
     # (i) integrands pointwise
     check_integrands_direct(ctx, rng, ctx.n(400, 4000))
-    # (ii) direct integrals vs the defining integral, negative arguments beyond the table too
-    nneg, npos = ctx.n(40, 1500), ctx.n(12, 300)
+    # (ii) direct integrals vs the defining integral.  Negative arguments: half of them log-uniform
+    # in (-pi^2, -1e-12) (Goldstone-like masses crossing zero), half uniform down to -100 (beyond
+    # the table and the kinks), plus the exact special values
+    nneg, npos = ctx.n(60, 1500), ctx.n(12, 300)
+    specials = [-0.0, 1e-300, -1e-300, 1e-100, -1e-100, -1e-9, -1e-6, -1e-3, -0.5,
+                -20.5, -39.0, -41.0, -60.0, -100.0]
     for tag, (kind, obj) in objs.items():
-        xs = [-rng.uniform(0.01, 100.0) for _ in range(nneg)] + \
-             [-20.5, -39.0, -41.0, -60.0, -100.0] + \
-             [rng.uniform(0, 1200.0) for _ in range(npos)] + [0.0]
+        xs = [-10.0 ** rng.uniform(-12.0, math.log10(9.8)) for _ in range(nneg // 2)] + \
+             [-rng.uniform(9.9, 100.0) for _ in range(nneg - nneg // 2)] + specials + \
+             [rng.uniform(0, 1200.0) for _ in range(npos)] + \
+             [10.0 ** rng.uniform(-12.0, 0.0) for _ in range(npos // 2)] + [0.0]
+        vals = {}
         for x in xs:
             got = impl_J(obj, x)
             want = ref_J(kind, x)
+            vals[x] = got
             ctx.count("direct_integral_" + tag, bucket=(
                 "x>=0" if x >= 0 else "x<-4pi^2" if x < -39.48 else "x<-pi^2" if x < -9.87
-                else "-pi^2<x<0"))
+                else "-pi^2<x<-0.01" if x < -0.01 else "-0.01<x<0"))
             classify_integral(ctx, tag, kind, obj, x, got, want, 1e-7, "direct")
+        # array arguments (the loop of the dispatcher) give the scalar results, element by element
+        for shape in ((3,), (2, 2)):
+            pick = rng.sample(xs, int(np.prod(shape)))
+            with warnings.catch_warnings():
+                warnings.simplefilter("ignore")
+                arr = np.asarray(obj(np.array(pick).reshape(shape), bUseInterpolatedValues=False),
+                                 dtype=float)
+            ctx.count("direct_array_argument_" + tag, bucket=str(shape))
+            ok = arr.shape == shape + (2,)
+            if ok:
+                flat = arr.reshape(-1, 2)
+                ok = all((float(flat[j, 0]), float(flat[j, 1])) == vals[pick[j]]
+                         for j in range(len(pick)))
+            if not ok:
+                ctx.fail_input("%s(array %r of shape %r) = %r differs from the scalar "
+                               "evaluations %r" % (tag, pick, shape, arr.tolist(),
+                                                   [vals[x] for x in pick]),
+                               dict(kind="array_arg", cls=tag, xs=pick, shape=list(shape),
+                                    got=arr.tolist()), key="array-argument:" + tag)
     # values at zero
     for tag, exact in (("Jb", -math.pi ** 4 / 45), ("Jf", -7 * math.pi ** 4 / 360)):
         got = impl_J(objs[tag][1], 0.0)
@@ -723,8 +795,10 @@ def direct(ctx, rng, D):
         idx = [i for i in range(n) if xs[i] < 0]
         pos = [i for i in range(n) if xs[i] >= 0]
         if ctx.quick:
-            step = max(1, len(pos) // 60)
-            idx += pos[::step] + pos[:12] + [pos[-1]]
+            # every row with 0 <= x <= 60 (where the table theorems admit the largest node
+            # errors), beyond that every 24th row with an offset drawn from the seed
+            dense = [i for i in pos if xs[i] <= 60.0]
+            idx += dense + pos[len(dense) + rng.randrange(24)::24] + [pos[-1]]
         else:
             idx += pos
         for i in sorted(set(idx)):
@@ -751,10 +825,24 @@ def direct(ctx, rng, D):
         T = tabs[tag]
         xs = np.asarray(T._interpolationPoints, dtype=float)
         grid = float(xs[1] - xs[0])
+        i_zero = int(np.searchsorted(xs, 0.0))          # first row with x >= 0
+        i_100 = int(np.searchsorted(xs, 100.0))
+        # a tabulated object called with an ARRAY answers element by element
+        pick = [float(rng.uniform(-19.0, 990.0)) for _ in range(5)]
+        with warnings.catch_warnings():
+            warnings.simplefilter("ignore")
+            arr = np.asarray(T(np.array(pick)), dtype=float)
+            one = [np.asarray(T(x), dtype=float).ravel() for x in pick]
+        ctx.count("table_array_argument_" + tag)
+        if arr.shape != (5, 2) or any(tuple(arr[j]) != tuple(one[j]) for j in range(5)):
+            ctx.fail_input("default %s table called with the array %r gives %r, the scalar "
+                           "calls %r" % (tag, pick, arr.tolist(), [o.tolist() for o in one]),
+                           dict(kind="table_array", cls=tag, xs=pick, got=arr.tolist()),
+                           key="array-argument:table-" + tag)
         cand = [0.5 * (xs[i] + xs[i + 1]) for i in
-                sorted(rng.sample(range(0, 197), ctx.n(16, 196)) +
-                       rng.sample(range(197, 1200), ctx.n(16, 300)) +
-                       rng.sample(range(1200, len(xs) - 1), ctx.n(8, 300)))]
+                sorted(rng.sample(range(0, i_zero), min(i_zero, ctx.n(16, 196))) +
+                       rng.sample(range(i_zero, i_100), min(i_100 - i_zero, ctx.n(24, 300))) +
+                       rng.sample(range(i_100, len(xs) - 1), ctx.n(8, 300)))]
         h = 1e-3
         for x in cand:
             x = float(x)
@@ -890,11 +978,46 @@ def direct(ctx, rng, D):
                                "[%r, %r] and negative sign" % (x, label, got, lower, bound),
                                dict(kind="heavy", x=x, T=T, nb=nb, nf=nf, got=got, label=label),
                                key="heavy-mass:" + label)
-    # continuity in the masses (direct integrals; across m^2 = 0 and at generic points)
-    for _ in range(ctx.n(10, 80)):
+    # continuity in the masses, with a derived modulus: |d Re Jb/dx| <= pi^2/12 (attained at 0) on
+    # [-9.5, 60] and |d Re Jf/dx| <= 0.6 on [-6, 60] (pi^2/24 at 0, maximum 0.562 near -1.9).  A
+    # geometric ladder (ratio 10^0.05, offset drawn from the seed) on both sides of zero, adjacent
+    # rungs: |J(x_{k+1}) - J(x_k)| <= L |x_{k+1} - x_k| + 1e-9 and the increment agrees with the
+    # increment of the independent quadrature.  A jump of 1e-4 anywhere in 1e-8 < |x| < 9 is seen.
+    off = rng.uniform(0.0, 0.05)
+    for tag, (kind, obj) in objs.items():
+        lo = 9.5 if tag == "Jb" else 6.0
+        L = math.pi ** 2 / 12 * 1.01 if tag == "Jb" else 0.6
+        h = 0.05 if ctx.quick else 0.02
+        mags = []
+        u = -8.0 + off
+        while 10.0 ** u < 9.0:
+            mags.append(10.0 ** u)
+            u += h
+        ladder = [-m for m in reversed(mags) if m < lo] + [0.0] + mags
+        prev = None
+        reported = False
+        for x in ladder:
+            g = impl_J(obj, x)[0]
+            w = ref_J(kind, x)[0]
+            ctx.count("continuity_ladder_" + tag, bucket="x<0" if x < 0 else "x>=0")
+            if prev is not None and not reported:
+                px, pg, pw = prev
+                dx = x - px
+                if not (abs(g - pg) <= L * dx + 1e-9) or \
+                        not (abs((g - pg) - (w - pw)) <= 2e-8 + 1e-3 * abs(w - pw)):
+                    ctx.fail_input(
+                        "Re %s is not continuous with modulus %.3g between x = %r and %r: "
+                        "values %r, %r (increment %.3g, allowed %.3g; the defining integral "
+                        "moves by %.3g)" % (tag, L, px, x, pg, g, g - pg, L * dx + 1e-9, w - pw),
+                        dict(kind="continuity", cls=tag, x0=px, x1=x, v0=pg, v1=g,
+                             ref0=pw, ref1=w), key="mass-continuity:" + tag)
+                    reported = True
+            prev = (x, g, w)
+    # the same through the potential: one species whose m^2 crosses zero
+    for _ in range(ctx.n(8, 40)):
         T = rng.uniform(1.0, 100.0)
-        x0 = rng.choice([0.0, 0.0, rng.uniform(-9.0, 30.0)])
-        d = 1e-7
+        x0 = rng.choice([0.0, -10.0 ** rng.uniform(-7, 0.5), 10.0 ** rng.uniform(-7, 1.5)])
+        d = 10.0 ** rng.uniform(-7, -4)
         vals = []
         for x in (x0 - d, x0, x0 + d):
             bos = (np.array([x * T * T]), np.array([3.0]), np.full(1, 1.5), np.full(1, 1.0))
@@ -902,11 +1025,203 @@ def direct(ctx, rng, D):
             vals.append(float(direct_pot.potentialOneLoopThermal(bos, fer, T)))
         ctx.count("continuity_in_mass", bucket="m2=0" if x0 == 0.0 else "generic")
         sc = T ** 4 / (2 * math.pi ** 2)
-        # |dJ/dx| <= ~ 1 near 0 (J_b' ~ pi^2/12, imaginary part not in V); sqrt behaviour allowed
-        if max(abs(vals[0] - vals[1]), abs(vals[2] - vals[1])) > 7 * sc * 50 * math.sqrt(d):
-            ctx.fail_input("V_T jumps in m^2 at m^2/T^2 = %r (T = %r): %r | %r | %r" % (
-                x0, T, vals[0], vals[1], vals[2]),
-                dict(kind="continuity", x0=x0, T=T, vals=vals), key="mass-continuity")
+        allowed = sc * ((3.0 * math.pi ** 2 / 12 * 1.01 + 4.0 * 0.6) * d + 1e-8)
+        if max(abs(vals[0] - vals[1]), abs(vals[2] - vals[1])) > allowed:
+            ctx.fail_input("V_T jumps in m^2 at m^2/T^2 = %r +- %r (T = %r): %r | %r | %r "
+                           "(allowed step %.3g)" % (x0, d, T, vals[0], vals[1], vals[2], allowed),
+                           dict(kind="continuity_pot", x0=x0, d=d, T=T, vals=vals),
+                           key="mass-continuity:potential")
+    temperature_types(ctx, rng, direct_pot)
+    shipped_path(ctx, rng, D, objs)
+
+
+def temperature_types(ctx, rng, direct_pot):
+    """every temperature: Python int / numpy integer / integer array / float array of length 1
+    and 3, 1-D and (nT, k) spectra, scalar and integer dof -- against the float scalar call"""
+    from WallGo.PotentialTools import Integrals, EImaginaryOption
+    # the recorded known finding first (deterministic)
+    def massless(T):
+        bos = (np.array([0.0]), np.array([1.0]), np.full(1, 1.5), np.full(1, 1.0))
+        fer = (np.array([0.0]), np.array([0.0]), np.full(1, 1.5), np.full(1, 1.0))
+        with warnings.catch_warnings():
+            warnings.simplefilter("ignore")
+            return np.asarray(direct_pot.potentialOneLoopThermal(bos, fer, T), dtype=float)
+    for label, T in (("int", 100000), ("np.int64", np.int64(100000)), ("int", 55109),
+                     ("int", 55108), ("int", 7), ("int array", np.array([3, 100000])),
+                     ("np.int32", np.int32(40000)),
+                     ("int", rng.randint(56000, 10 ** 7)), ("int", rng.randint(2, 50000))):
+        got = massless(T).ravel()
+        Tf = np.asarray(T, dtype=float).ravel()
+        want = -(math.pi ** 2 / 90) * Tf ** 4
+        ctx.count("temperature_type", bucket=label)
+        if got.shape != want.shape or not np.all(np.abs(got - want) <= 1e-9 * np.abs(want)):
+            # the recorded mechanism: an integer dtype is kept and T**4 exceeds its range
+            dt = np.asarray(T).dtype
+            big = bool(np.issubdtype(dt, np.integer) and
+                       np.any(Tf ** 4 > float(np.iinfo(dt).max)))
+            ctx.fail_input(
+                "potentialOneLoopThermal(one massless boson, T = %r [%s]) = %r, expected %r "
+                "(the float call gives %r)" % (T, label, got.tolist(), want.tolist(),
+                                               massless(Tf if Tf.size > 1 else
+                                                        float(Tf[0])).ravel().tolist()),
+                dict(kind="int_temperature", T=np.asarray(T).tolist(), label=label,
+                     got=got.tolist(), want=want.tolist()),
+                key="int-temperature-overflow" if big else "temperature-type:" + label)
+    # array temperatures and broadcast spectra agree with the scalar calls
+    for _ in range(ctx.n(4, 24)):
+        nT = rng.choice([1, 3])
+        Ts = [rng.uniform(1.0, 300.0) for _ in range(nT)]
+        kb, kf = rng.randint(1, 4), rng.randint(1, 3)
+        form = rng.choice(["1-D spectrum", "(nT,k) spectrum", "scalar dof", "int dof"])
+        xb = [rng.choice([0.0, rng.uniform(0, 40.0), -rng.uniform(0, 5.0)]) for _ in range(kb)]
+        xf = [rng.choice([0.0, rng.uniform(0, 40.0)]) for _ in range(kf)]
+        dofb = [float(rng.randint(1, 12)) for _ in range(kb)]
+        doff = [float(rng.randint(1, 40)) for _ in range(kf)]
+        if form == "scalar dof":
+            dofb, doff = [dofb[0]] * kb, [doff[0]] * kf
+        Tref = Ts[0]
+        mb, mf = np.array(xb) * Tref ** 2, np.array(xf) * Tref ** 2
+
+        def call(T, twod=False):
+            MB, MF = (np.tile(mb, (nT, 1)), np.tile(mf, (nT, 1))) if twod else (mb, mf)
+            nB = dofb[0] if form == "scalar dof" else np.array(
+                dofb, dtype=int if form == "int dof" else float)
+            nF = doff[0] if form == "scalar dof" else np.array(
+                doff, dtype=int if form == "int dof" else float)
+            with warnings.catch_warnings():
+                warnings.simplefilter("ignore")
+                return np.asarray(direct_pot.potentialOneLoopThermal(
+                    (MB, nB, np.full(kb, 1.5), np.full(kb, 1.0)),
+                    (MF, nF, np.full(kf, 1.5), np.full(kf, 1.0)), T), dtype=float).ravel()
+        ref = np.array([float(make_plain_call(direct_pot, mb, dofb, mf, doff, T)) for T in Ts])
+        got = call(np.array(Ts), twod=(form == "(nT,k) spectrum"))
+        ctx.count("array_temperature", bucket="%s nT=%d" % (form, nT))
+        if got.shape != ref.shape or not np.all(np.abs(got - ref) <= 1e-12 * np.abs(ref) + 1e-300):
+            ctx.fail_input("potentialOneLoopThermal with temperature array %r (%s): %r, the "
+                           "scalar calls give %r" % (Ts, form, got.tolist(), ref.tolist()),
+                           dict(kind="array_T", Ts=Ts, form=form, xb=xb, xf=xf, dofb=dofb,
+                                doff=doff, got=got.tolist(), want=ref.tolist()),
+                           key="array-T:" + form)
+
+
+def make_plain_call(pot, mb, dofb, mf, doff, T):
+    with warnings.catch_warnings():
+        warnings.simplefilter("ignore")
+        return pot.potentialOneLoopThermal(
+            (np.asarray(mb, dtype=float), np.array(dofb, dtype=float), np.full(len(dofb), 1.5),
+             np.full(len(dofb), 1.0)),
+            (np.asarray(mf, dtype=float), np.array(doff, dtype=float), np.full(len(doff), 1.5),
+             np.full(len(doff), 1.0)), float(T))
+
+
+def shipped_path(ctx, rng, D, objs):
+    """The path of the shipped models: EffectivePotentialNoResum(useDefaultInterpolation=True),
+    i.e. the GLOBAL defaultIntegrals re-configured by __init__.  Run last (it changes global
+    state on the unchanged tree) and undone at the end."""
+    from WallGo.PotentialTools import EImaginaryOption
+    from WallGo.interpolatableFunction import EExtrapolationType
+    tabs = {"Jb": D.Jb, "Jf": D.Jf}
+    probes = [-25.0, -20.5, -20.0, 0.3, 999.5, 1000.0, 1500.0, 1.0e4]
+
+    def snapshot():
+        out = {}
+        for tag, T in tabs.items():
+            with warnings.catch_warnings():
+                warnings.simplefilter("ignore")
+                out[tag] = ([[float(v) for v in np.asarray(T(x), dtype=float).ravel()]
+                             for x in probes],
+                            T.extrapolationTypeLower.name, T.extrapolationTypeUpper.name,
+                            bool(T._bUseAdaptiveInterpolation))
+        return out
+    before = snapshot()
+    # beyond both ends the defaults (extrapolation NONE) evaluate directly: compare with the
+    # defining integral
+    for tag, T in tabs.items():
+        kind, obj = objs[tag]
+        for x in [-rng.uniform(20.0, 40.0), -rng.uniform(20.0, 100.0),
+                  10.0 ** rng.uniform(3.0, 3.3), 10.0 ** rng.uniform(3.3, 6.0)]:
+            with warnings.catch_warnings():
+                warnings.simplefilter("ignore")
+                got = [float(v) for v in np.asarray(T(x), dtype=float).ravel()]
+            ctx.count("defaults_beyond_table_" + tag, bucket="below" if x < 0 else "above")
+            classify_integral(ctx, tag, kind, obj, x, got, ref_J(kind, x), 1e-7,
+                              "defaultIntegrals (before any potential is built)")
+    pot = make_pot("shipped", EImaginaryOption.PRINCIPAL_PART)
+    after = snapshot()
+    ctx.count("shipped_path_global_state")
+    if after != before:
+        changed = [(tag, x, b, a) for tag in tabs
+                   for x, b, a in zip(probes, before[tag][0], after[tag][0]) if a != b]
+        ctx.fail_input(
+            "constructing ONE EffectivePotentialNoResum(useDefaultInterpolation=True) changed "
+            "the module-level defaultIntegrals for every user: extrapolation %s/%s -> %s/%s; %s" % (
+                before["Jb"][1], before["Jb"][2], after["Jb"][1], after["Jb"][2],
+                "; ".join("%s(%r): %r -> %r" % c for c in changed[:4])),
+            dict(kind="global_state", before=before, after=after, probes=probes),
+            key="default-integrals-mutated")
+    # the object the potential uses: what it answers beyond the table
+    J = {"Jb": pot.integrals.Jb, "Jf": pot.integrals.Jf}
+    edge = {}
+    for tag, T in J.items():
+        with warnings.catch_warnings():
+            warnings.simplefilter("ignore")
+            edge[tag] = ([float(v) for v in np.asarray(T(-20.0), dtype=float).ravel()],
+                         [float(v) for v in np.asarray(T(1000.0), dtype=float).ravel()])
+    # heavy species must stay suppressed beyond the upper end (x up to 1e6)
+    for _ in range(ctx.n(16, 120)):
+        x = 10.0 ** rng.uniform(3.0, 6.0)
+        T = rng.uniform(1.0, 200.0)
+        nb, nf = rng.randint(1, 20), rng.randint(1, 40)
+        bos = (np.array([x * T * T]), np.array([float(nb)]), np.full(1, 1.5), np.full(1, 1.0))
+        fer = (np.array([x * T * T]), np.array([float(nf)]), np.full(1, 1.5), np.full(1, 1.0))
+        with warnings.catch_warnings():
+            warnings.simplefilter("ignore")
+            got = float(pot.potentialOneLoopThermal(bos, fer, T))
+        ctx.count("shipped_path_heavy", bucket="x<1e4" if x < 1e4 else "x>=1e4")
+        # true |J| < 1e-12 there; the tables end at |J(1000)| = 4.4e-12 (file noise floor 1e-11)
+        bound = (nb + nf) * T ** 4 / (2 * math.pi ** 2) * 1e-10
+        if not abs(got) <= bound:
+            ctx.fail_input("shipped path (useDefaultInterpolation=True), heavy species "
+                           "m^2/T^2 = %r: V = %r, |V| must stay below %r" % (x, got, bound),
+                           dict(kind="shipped_heavy", x=x, T=T, nb=nb, nf=nf, got=got),
+                           key="shipped-path:heavy")
+    # below the lower end
+    for tag, T in J.items():
+        kind, obj = objs[tag]
+        # the recorded input of the known finding first, then seeded ones
+        for x in [-25.0, -20.0 - 10.0 ** rng.uniform(-3, 0), -rng.uniform(21.0, 40.0)]:
+            with warnings.catch_warnings():
+                warnings.simplefilter("ignore")
+                got = [float(v) for v in np.asarray(T(x), dtype=float).ravel()]
+            want = ref_J(kind, x)
+            ctx.count("shipped_path_below_" + tag)
+            if all(abs(g - w) <= 1e-6 * max(1.0, abs(w)) for g, w in zip(got, want)):
+                continue
+            if got == edge[tag][0] and T.extrapolationTypeLower == EExtrapolationType.CONSTANT:
+                ctx.fail_input(
+                    "shipped path: %s(%r) = %r is the table value at -20 (constant continuation), "
+                    "the defining integral is %r" % (tag, x, got, list(want)),
+                    dict(kind="shipped_below", cls=tag, x=x, got=got, want=list(want)),
+                    key="shipped-path-constant-below-table")
+            else:
+                classify_integral(ctx, tag, kind, obj, x, got, want, 1e-6,
+                                  "shipped path below the table:")
+    # the model of Props/C20.v (beyond_table with the generated extrapolation types) against the
+    # running objects
+    for tag, T in J.items():
+        ctx.count("shipped_path_model")
+        with warnings.catch_warnings():
+            warnings.simplefilter("ignore")
+            up = [float(v) for v in np.asarray(T(5000.0), dtype=float).ravel()]
+        if T.extrapolationTypeUpper == EExtrapolationType.CONSTANT and up != edge[tag][1]:
+            ctx.broken.append("correspondence: %s above the table with CONSTANT extrapolation "
+                              "is %r, not the last row %r" % (tag, up, edge[tag][1]))
+        if T._bUseAdaptiveInterpolation:
+            ctx.fail_input("shipped path: %s is left with adaptive interpolation ON" % tag,
+                           dict(kind="shipped_adaptive", cls=tag), key="shipped-path:adaptive")
+    # undo the global change so that nothing after this run depends on it
+    for T in tabs.values():
+        T.setExtrapolationType(EExtrapolationType.NONE, EExtrapolationType.NONE)
 
 
 def replay(rep):
